@@ -8,7 +8,7 @@ from harness import core, py2lean, instantiate
 from harness.core import Outcome, f2b, b2f
 
 ID = "C06"
-LEAN_TARGETS = ["BeyondVerif.Props.C06", "BeyondVerif.Props.C06Iter"]
+LEAN_TARGETS = ["BeyondVerif.Props.C06", "BeyondVerif.Props.C06Iter", "BeyondVerif.Props.C06Conv", "BeyondVerif.Props.C06Adapt", "BeyondVerif.Props.C06Gen"]
 THEOREMS = [
     "BeyondVerif.C06.trees_orders_gammas",
     "BeyondVerif.C06.euler_order1",
@@ -46,6 +46,13 @@ THEOREMS = [
     "BeyondVerif.C06.copy_keeps_settings",
     "BeyondVerif.C06.butcher_names",
     "BeyondVerif.C06.copy_then_call",
+    "BeyondVerif.C06.out_independent_of_binding",
+    "BeyondVerif.C06.bind_uses_current_frame",
+    "BeyondVerif.C06.orbit_call_steps_from_current_view",
+    "BeyondVerif.C06.orbit_call_independent_of_previous_binding",
+    "BeyondVerif.C06.copy_drops_binding",
+    "BeyondVerif.C06.frame_change_does_not_rebind",
+    "BeyondVerif.C06.bind_unknown_frame",
     "BeyondVerif.C06.marchWith_exit",
     "BeyondVerif.C06.marchWith_consumes",
     "BeyondVerif.C06.marchWith_incr",
@@ -60,15 +67,76 @@ THEOREMS = [
     "BeyondVerif.C06.outputs_props_distinct",
     "BeyondVerif.C06.runReqs_own",
     "BeyondVerif.C06.sibling_requests_independent",
+    "BeyondVerif.C06.relative_stop_counts_from_start",
+    "BeyondVerif.C06.relative_target_counts_from_epoch",
+    # convergence (Props/C06Conv.lean on Lemmas/Gronwall, OneStep, Gravity)
+    "BeyondVerif.Gronwall.discrete_gronwall",
+    "BeyondVerif.Gronwall.one_step_global_error",
+    "BeyondVerif.OneStep.taylor1_remainder",
+    "BeyondVerif.OneStep.euler_local_error_ode",
+    "BeyondVerif.OneStep.rk4_step_lipschitz",
+    "BeyondVerif.Gravity.grav_lipschitz",
+    "BeyondVerif.Gravity.hasGradientAt_potential",
+    "BeyondVerif.C06.rkOnce_euler_coords",
+    "BeyondVerif.C06.rkOnce_rk4_coords",
+    "BeyondVerif.C06.accelCentral_coords",
+    "BeyondVerif.C06.euler_local_truncation",
+    "BeyondVerif.C06.euler_global_error_general",
+    "BeyondVerif.C06.euler_global_error",
+    "BeyondVerif.C06.euler_two_body_converges",
+    "BeyondVerif.C06.rk4_linear_system",
+    "BeyondVerif.C06.rkOnce_rk4_linear_system",
+    "BeyondVerif.C06.rk4_local_to_global",
+    "BeyondVerif.C06.rk4_global_error_partial",
+    "BeyondVerif.C06.rk4_converges",
+    "BeyondVerif.C06.rk4_linear_converges_order4",
+    "BeyondVerif.C06.accel_is_gradient",
+    "BeyondVerif.C06.energy_first_integral",
+    "BeyondVerif.C06.angular_momentum_first_integral",
+    "BeyondVerif.C06.circ_solves",
+    # the general one-step theorem for a tableau (Props/C06Gen.lean)
+    "BeyondVerif.C06.rkOnce_coords",
+    "BeyondVerif.C06.butcher_shaped",
+    "BeyondVerif.C06.stepE_sub_euler",
+    "BeyondVerif.C06.stepE_lipschitz",
+    "BeyondVerif.C06.rk_converges",
+    "BeyondVerif.C06.butcher_consistent",
+    "BeyondVerif.C06.every_integrator_converges",
+    # the adaptive controller (Props/C06Adapt.lean)
+    "BeyondVerif.C06.usRound_close",
+    "BeyondVerif.C06.step_scale_contracts",
+    "BeyondVerif.C06.adaptive_terminates",
+    "BeyondVerif.C06.adaptive_terminates_of_order",
 ]
 LEVEL_TEXT = ("Lean theorems over R about the four Butcher tableaux, the per-body attraction, the step-size update and MAX_ITER translated from "
               "keplernum.py on every run: all rooted-tree order conditions (Euler 1; RK4 all 8 up to order 4; RKF54 and DOPRI54 all 17 up to order 5 for "
               "the propagated weights, all 8 up to order 4 for the embedded weights), row sums and shape for every integrator, FSAL row; the modelled "
-              "field is Newton's law, central and energy-conserving; for the modelled step: exact quadrature of polynomial right-hand sides of degree < p "
-              "for every step size, Taylor polynomial of exp on the linear test equation, an adaptive step is only accepted with its estimate <= tol, a "
-              "rejected step strictly shrinks and keeps its sign. One KeplerNum object through any history of attribute assignments (method, step, tol, "
-              "bodies, in-place list changes), copy() and calls: the reply to a call is a function of the CURRENT attribute values only (= the reply of a "
-              "fresh object), the step is that of the tableau selected by the current method, copy() keeps every setting. The padding rule of _iter "
+              "field is Newton's law, central and energy-conserving. CONVERGENCE (Props/C06Conv on Lemmas/Gronwall, OneStep, Gravity): the discrete "
+              "Gronwall inequality and the global error of any one-step method in a normed space (local error <= C h^(p+1), step map (1+h Lambda)-"
+              "Lipschitz => global error <= C h^p (e^(Lambda T)-1)/Lambda, by induction on the number of steps); for the model's generic step on the "
+              "regenerated Euler tableau: local truncation error <= (h^2/2) sup|y''| (Taylor, mean-value inequality), global error <= (B h/2)(e^(L T)-1) "
+              "for every autonomous field bounded by B and L-Lipschitz on a set containing the exact and the numerical states, and with explicit constants "
+              "B = max(v_max, mu/r_min^2), L = max(1, 2 mu/r_min^3) for the regenerated two-body field on |r| >= r_min, |v| <= v_max (first order, fully "
+              "proved; the circular orbit satisfies every hypothesis); the attraction is 2mu/m^3-Lipschitz on the whole (non-convex) exterior |r| >= m, is "
+              "the gradient of mu/|r| (HasGradientAt), and energy and every component of r x v have derivative 0 along ANY solution of the modelled "
+              "equation of motion; the model's step on the regenerated RK4 tableau IS the classical Runge-Kutta map, which is "
+              "(1+z+z^2/2+z^3/6+z^4/24)-Lipschitz (z = hL), equals the degree-4 Taylor polynomial of exp(hA) on every linear system y' = A y, converges "
+              "unconditionally (order >= 1) for globally Lipschitz bounded autonomous fields — as does EVERY well-shaped tableau whose weights sum to 1 "
+              "(Props/C06Gen: the model's generic rkOnce is the normed-space step stepE in coordinates for any such tableau; consistency "
+              "|step - Euler| <= (sum|b_i|) alpha L B h^2; step map (1 + h L sum|b_i| (1+hL alpha)^(s-1))-Lipschitz; rk_converges; instantiated for "
+              "all four regenerated tableaux, alpha = 25: every_integrator_converges) —, at order 4 GIVEN the local error C h^5 (_partial), and at "
+              "order 4 with no hypothesis left on the linear test equation (local error = exp remainder <= |y||h lambda|^5/100). ADAPTIVE CONTROLLER "
+              "(Props/C06Adapt): an adaptive step is only accepted with its embedded estimate <= tol; a rejected pass contracts the step by at least "
+              "(1/2)^(1/(s-1)) whatever its sign, also through timedelta's rounding to microseconds; the step-size loop ends within its fuel whenever the "
+              "estimate is within tol for all |h| <= h* (e.g. an O(h^m) estimate, h* = (tol/K)^(1/m)) and theta^fuel |h| + fuel*0.5us <= h*. For the modelled "
+              "step also: exact quadrature of polynomial right-hand sides of degree < p, Taylor polynomial of exp on the linear test equation. "
+              "One KeplerNum object through any history of attribute assignments (method, step, tol, bodies, FRAME, in-place list changes), BINDINGS "
+              "(prop.orbit = orb stores the caller's orbit converted to the frame current at that moment), copy() and calls: the reply to a call is a "
+              "function of the CURRENT attribute values only (= the reply of a fresh object), an Orbit-level call (bind, then step) integrates the caller's "
+              "orbit as seen in the current frame with the current settings whatever was bound before (another satellite, another frame), copy() keeps "
+              "every setting incl. the frame and starts unbound, a frame assigned after a binding does not re-bind (why Orbit.propagate re-binds at every "
+              "call). The request as written by the caller (NumericalPropagator.iter / propagate translated from base.py on every run): a relative stop "
+              "is counted from the start of the request, a relative target from the epoch. The padding rule of _iter "
               "(loop condition, interp flag, padding count, order argument of Ephem(...) and DEFAULT_ORDER translated from the source on every run): "
               "whenever an output is interpolated the tabulation holds >= DEFAULT_ORDER points, starts at the start, reaches the stop and is interpolated "
               "at order DEFAULT_ORDER however short the span; the same for the positioning phase of propagate(). The object graph of outputs (position of "
@@ -77,12 +145,19 @@ LEVEL_TEXT = ("Lean theorems over R about the four Butcher tableaux, the per-bod
               "consumption), each return their own orbit's trajectory. The step model, the object histories "
               "and the tabulations are tied to KeplerNum._make_step/_accel, to real objects driven through the same histories, and to the Ephem objects "
               "the real _iter builds, by differential correspondence runs.")
-LEVEL_NOTE = ("the classical theorem 'order conditions up to p => global convergence at order p' is cited, not formalised; convergence of the real propagator, "
-              "first-integral drift and resampling independence are searched by the oracle only; the Lagrange window arithmetic of utils/interp.py is C09's; "
-              "R -> double gap covered by tolerance-bounded correspondence; Lean kernel + propext/Classical.choice/Quot.sound; AST translator and harness trusted")
-TECHNIQUE = ("Lean 4 proof (norm_num / ring / rpow lemmas / induction on fuel, on histories and on the list of accepted step sizes / omega) over tables, "
-             "formulas and loop conditions regenerated from the Python AST; differential correspondence of the compiled models with KeplerNum._make_step/_accel, "
-             "with real objects driven through random operation sequences, and with the tabulations the real _iter hands to Ephem")
+LEVEL_NOTE = ("order 4 of RK4 (and 5 of the adaptive pairs) for a general smooth field rests on the local-error hypothesis of rk4_global_error_partial: "
+              "Butcher's theorem 'order conditions up to p => local error O(h^(p+1))' (Taylor expansion against elementary differentials) is cited, not "
+              "formalised beyond p = 1 and beyond linear problems; the convergence theorems are about the MODEL (exact real arithmetic, numerical states "
+              "assumed to stay in |r| >= r_min, |v| <= v_max) with constants exponential in the span (e^(L T), L >= 1/s in the unweighted sup norm: an order "
+              "statement, not a usable error budget); convergence of the real propagator, the size of the first-integral drift, the true local error of an "
+              "accepted adaptive step (<= 2 tol) and resampling independence are searched by the oracle only; the Lagrange window arithmetic of "
+              "utils/interp.py is C09's; R -> double gap covered by tolerance-bounded correspondence; Lean kernel + propext/Classical.choice/Quot.sound; "
+              "AST translator and harness trusted")
+TECHNIQUE = ("Lean 4 proof (norm_num / ring / rpow lemmas / induction on fuel, on histories, on the number of steps and on the list of accepted step "
+             "sizes / omega; Mathlib's mean-value inequalities, inner-product calculus, exp series bound) over tables, formulas, loop conditions and "
+             "request normalisation regenerated from the Python AST; differential correspondence of the compiled models with KeplerNum._make_step/_accel, "
+             "with real objects driven through random operation sequences (incl. frame changes and bindings), with the (start, stop) the real _iter receives "
+             "and with the tabulations it hands to Ephem")
 TRUSTED = [
     "harness/props/C06.py: extract() reads BUTCHER (entries kept as the source's rational expressions), the body of `for body in self.bodies` of _accel, "
     "the step-size update statement and MAX_ITER of _make_step from the AST into Generated/KeplerNum{F,R}.lean on every run; the tableau reading is "
@@ -90,9 +165,13 @@ TRUSTED = [
     "harness/props/C06.py: translate_iter() reads from `KeplerNum._iter` the condition of the march loop, the `interp` assignment, the padding count of the "
     "positioning phase and the `order` argument of both Ephem(...) calls, from ephem.py DEFAULT_ORDER and the order defaulting of Ephem.__init__, into "
     "Generated/KNIterSrc.lean; the loop bodies and the positioning loop condition are compared textually with what Model/KNIter.lean models (any other "
-    "shape is an extraction failure = a broken obligation)",
+    "shape is an extraction failure = a broken obligation); translate_request() reads from base.py (NumericalPropagator.iter / propagate) what a relative "
+    "stop and a relative target are counted from (relStop, relTarget), the defaulting of `start` and the forwarding to _iter being compared textually",
     "lean/templates/RK.tpl (hand-written stage loop, weight combination, error estimate, accept/shrink loop), lean/templates/KNObj.tpl (attribute state "
-    "machine), lean/BeyondVerif/Model/KNIter.lean (march / padding over the reported step sizes): tied by the correspondence runs",
+    "machine incl. frame and bound orbit; the frame conversion is an input: the caller's orbit is given as its state in every candidate frame, computed "
+    "by the real code), lean/BeyondVerif/Model/KNIter.lean (march / padding over the reported step sizes): tied by the correspondence runs",
+    "Props/C06Conv.lean Coords (coordsSt: a state (r, v) of EuclideanSpace R^3 x R^3 as the model's list [x, y, z, vx, vy, vz]); accelCentral_coords proves "
+    "that the regenerated `_accel` with the central body at the origin is (v, -mu r/|r|^3) in these coordinates",
     "harness/py2lean.py Tr.expr for scalar entries",
     "numpy / libm double arithmetic vs R: tolerance 1e-11 relative on the step result",
 ]
@@ -100,44 +179,63 @@ ASSUMPTIONS = [
     "point-mass bodies, no maneuvers in the Lean model (ImpulsiveMan/ContinuousMan handling of _make_step/_accel belongs to C17; the re-use oracle does "
     "change the orbit's maneuvers between calls and compares with a fresh propagator); tol > 0",
     "theorems are over R; the implementation computes in IEEE doubles; dates/steps have microsecond resolution (usRound in the model; Int microseconds in KNIter)",
-    "cited, not formalised: order conditions for all rooted trees with <= p vertices imply local error O(h^(p+1)) and global convergence at order p "
+    "convergence theorems: the exact solution exists on the span and, with the numerical states, stays in the set where the field is bounded and Lipschitz "
+    "(two-body: |r| >= r_min, |v| <= v_max — hypotheses huK/hyK, not derived); fixed step h > 0 with n h = T (the fixed-step methods; the adaptive "
+    "march with varying accepted steps is covered per step only); RK4: h L <= 1",
+    "cited, not formalised: order conditions for all rooted trees with <= p vertices imply local error O(h^(p+1)) for p >= 2 on non-linear problems "
     "(Butcher; Hairer-Norsett-Wanner, Solving ODEs I, II.2-II.3); the list of the 17 trees with <= 5 vertices is hand-written (orders and densities proved)",
     "the embedded error estimate p_error is a cancelling sum (sum(b - b_star) = 0): passes whose estimate lies within 2e-16 |h||v| of tol are "
     "incomparable between numpy's and the model's summation order and are skipped by the correspondence (counted as step-borderline-skipped)",
-    "object histories in the Lean model use bodies at rest (the correspondence drives real KeplerNum objects with duck-typed fixed bodies); the `frame` "
-    "attribute, the bound orbit and its maneuvers are outside the Lean state machine and covered by the re-use oracle on the public API",
+    "object histories in the Lean model use bodies at rest IN THE FRAME OF THE ORBIT (the correspondence drives real KeplerNum objects with duck-typed fixed "
+    "bodies whose `frame` attribute is a plain attribute); the frame conversion of the bound orbit is an input of the model (C02); the orbit's maneuvers "
+    "are outside the Lean state machine and covered by the re-use oracle on the public API",
     "KNIter takes the accepted step sizes `_make_step` reports as an input list (observed on the real run in the correspondence); theorems hold for every such list",
 ]
 NOT_COVERED = [
-    "global convergence of the real propagator at order p, energy / angular-momentum drift bounds, adaptive error per step and over a span: oracle only "
+    "global convergence of the REAL propagator at order p, the size of energy / angular-momentum drift of the numerical solution, true local error of an "
+    "accepted adaptive step and over a span: oracle only "
     "(observed order by step halving read off the finest pair above the interpolation floor: >= 3.5 for RK4, >= 0.7 for Euler — one-sided, because over "
     "whole numbers of revolutions the h^4 term nearly cancels and RK4 shows 4.9; error bounds scaled by (n_p h)^p resp. tol; one-step local error <= 2 tol)",
+    "order 4 / 5 for a general smooth field (local error from the order conditions): hypothesis of rk4_global_error_partial; nothing is proved about the "
+    "global error of the adaptive methods over a span of varying steps",
+    "stage times t + c_i h of `_make_step` (`y_n_prime.date += step * c`) and the date of the new state: the field of the property (one central point "
+    "mass) does not depend on time, every correspondence body is at rest, so the use of `c` in the real code is not tied (third bodies, thrust: C17)",
     "resampling accuracy (Ephem Lagrange-8 over float MJD): oracle only. The 'few millimetres' of the property hold for n_p*h <= 0.05; the floor is "
     "6 ulp(MJD) x speed (up to 15 mm observed at perigee speed, edge interval) and the Lagrange remainder reaches decimetres to metres for the coarsest "
     "steps in low eccentric orbits (observed 7 m at h = 120 s, e = 0.6, perigee 200 km), tolerance 5 rp (n_p h)^8 there",
     "which `order` points of the tabulation Interp._lagrange selects around a date (window arithmetic): C09; here only that the tabulation has them and "
     "which order is requested (observed on the Ephem objects the real _iter builds)",
     "the dates `_iter` yields (Ephem.iter, Date.range): the iteration contract is C08 (iter(stop=..., step=...) also yields dates after `stop`, up to the "
-    "first integration node past it — reported to C08); the short-span oracle checks that the requested dates come first",
+    "first integration node past it — reported to C08; iter(start=None) raises AttributeError — listed by C08); the short-span oracle checks that the "
+    "requested dates come first",
     "targets within +-3 orbits are reached by the thorough tier only up to 900 integration steps per run (quick: 130)",
 ]
-OPEN = ["accel_energy is the algebraic identity v.a + mu (r.v)/rho^3 = 0; the HasDerivAt form (the attraction is the gradient of mu/rho) is not stated",
+OPEN = ["the derivation of the local error C h^5 of RK4 (and C h^6 of the order-5 weights) from the proved order conditions for a general C^p field "
+        "(Butcher series); with it rk4_global_error_partial becomes unconditional",
+        "the two-body convergence constants use the unweighted sup norm (L = max(1, 2mu/r_min^3)); a weighted norm max(|r|, |v|/omega) would give "
+        "L = omega = sqrt(2 mu / r_min^3) ~ 1.5e-3 /s in LEO; that the numerical states stay in |r| >= r_min is a hypothesis",
+        "errEst = |(y_b - y_bstar)[:3]| (the estimate IS the difference of the two embedded solutions) and an O(h^2) bound of it for Lipschitz fields, which "
+        "would discharge the hypothesis of adaptive_terminates, are not proved (the termination theorem takes the smallness of the estimate as hypothesis)",
         "quadrature exactness and the linear test equation are stated per tableau with explicit polynomial coefficients, not as one theorem "
         "'bushy/tall-tree conditions => exactness' for an arbitrary tableau",
-        "the object state machine has no `frame` / bound-orbit component (the `orbit` setter converts a copy at every Orbit.propagate / Orbit.iter call); "
-        "KNIter does not model Ephem.iter / the yielded dates (C08's model does)",
-        "runReqs models the binding only (which orbit a lazily started iterator integrates); settings changed on a sibling's propagator are oracle-only"]
+        "KNIter does not model Ephem.iter / the yielded dates (C08's model does); runReqs models the binding of lazily started iterators by identity only; "
+        "a setting changed on ONE sibling's propagator between creation and consumption of another sibling's iterator is oracle-only (copy() shares the "
+        "`bodies` list object between all copies: an in-place `bodies.append` on one sibling reaches all — value semantics, C15)"]
 RULE = ("correspondence: the five method names incl. unknown ones (tableaux bit-exact), _accel with Earth/Moon/Sun combinations on random bound orbits "
         "(perigee 200 km .. GEO+, e <= 0.74), _make_step for all four methods, steps 5-120 s both signs, tol 1e-9..1e-2, rtol 1e-11 (step size exact when "
-        "not shrunk); histories of 3-10 operations on ONE real KeplerNum object (assign method incl. upper-case / unknown names, step, tol, bodies; "
-        "bodies.append / pop in place; copy(); _make_step; butcher) against the model's state machine, each disagreeing call also compared with a fresh real "
-        "object (a difference there is a violation of the property itself); the Ephem objects (dates, order) the real _iter builds and its number of "
-        "_make_step calls for every request form (explicit step smaller/equal/larger/incommensurate, date lists, ranges, backward, offset start, "
+        "not shrunk); histories of 3-10 operations on ONE real KeplerNum object (constructed in EME2000 / TOD / MOD; assign method incl. upper-case / "
+        "unknown names, step, tol, bodies, frame incl. an unknown name; bodies.append / pop in place; prop.orbit = orb (bind), _make_step from the bound "
+        "orbit, read prop.orbit; copy(); _make_step on a given state; butcher) against the model's state machine, each disagreeing call also compared with "
+        "a fresh real object (a difference there is a violation of the property itself); the (start, stop) the real _iter receives for a request with a "
+        "relative stop / explicit start / relative target against the model of NumericalPropagator.iter / propagate (exact); the Ephem objects (dates, "
+        "order) the real _iter builds and its number of _make_step calls for every request form (explicit step smaller/equal/larger/incommensurate, date "
+        "lists, ranges, backward, offset start with absolute and with relative stop, "
         "Orbit.ephem, propagate, native step, step is self.step, listeners) on spans of 1..10 steps, all four methods, against KNIter fed with the "
         "observed accepted step sizes (exact); identity partition of the propagators of the points of several real outputs and which trajectory "
         "interleaved requests on sibling points return, against KNIter.outputsProps / runReqs; non-trivial = step != 0 resp. a call after a change resp. >= 1 integration step; distinct = distinct request "
-        "line. oracle, cheap families first: short spans (1..10 integration steps, the twelve request forms, every method) iterate vs propagate vs "
-        "analytical; one KeplerNum object re-used after changes of method / step / tol / bodies (also in place) / frame / maneuvers / bound orbit vs a "
+        "line. oracle, cheap families first: short spans (1..10 integration steps, the thirteen request forms, every method) iterate vs propagate vs "
+        "analytical; one KeplerNum object re-used after changes of method / step / tol / bodies (also in place) / frame / maneuvers / bound orbit / the "
+        "caller's orbit modified in place, shared by two orbit objects that are half of the time DIFFERENT satellites asked the same request, vs a "
         "fresh propagator and vs the analytical solution; sibling points of one output (iter / iter-step / ephem / propagate) as starts of "
         "interleaved requests (zip, reversed consumption, propagate in between, random next(), a setting changed on one sibling) vs each point's own "
         "fresh propagation, and one propagator object per point; adaptive global and one-step error over <= 30 steps both directions; chained propagate keeps "
@@ -410,7 +508,62 @@ class _Cond:
         raise U("_iter expression " + ast.unparse(e)[:100])
 
 
-def translate_iter(tree, ephem_tree):
+def _int_expr(e, names):
+    """date / span arithmetic over Int microseconds: names, `+`, `-`, unary minus"""
+    U = py2lean.Untranslatable
+    txt = ast.unparse(e)
+    if txt in names:
+        return names[txt]
+    if isinstance(e, ast.BinOp) and isinstance(e.op, (ast.Add, ast.Sub)):
+        return f"({_int_expr(e.left, names)} {'+' if isinstance(e.op, ast.Add) else '-'} {_int_expr(e.right, names)})"
+    if isinstance(e, ast.UnaryOp) and isinstance(e.op, ast.USub):
+        return f"(-{_int_expr(e.operand, names)})"
+    raise U("request normalisation: expression " + txt[:80])
+
+
+def translate_request(base_tree):
+    """`NumericalPropagator.iter` / `.propagate` (base.py): what a relative `stop` (a timedelta) and a relative target are counted
+    from, and which start an absent `start` means.  The statements are located by their shape; any other shape is refused."""
+    U = py2lean.Untranslatable
+    cls = next((n for n in base_tree.body if isinstance(n, ast.ClassDef) and n.name == "NumericalPropagator"), None)
+    if cls is None:
+        raise U("base.py: class NumericalPropagator")
+    fns = {f.name: f for f in cls.body if isinstance(f, ast.FunctionDef)}
+    if "iter" not in fns or "propagate" not in fns:
+        raise U("NumericalPropagator.iter / propagate")
+    it, pr = fns["iter"], fns["propagate"]
+    # iter: `if "dates" not in kwargs:` block
+    blk = [s for s in it.body if isinstance(s, ast.If) and ast.unparse(s.test) == "'dates' not in kwargs"]
+    if len(blk) != 1:
+        raise U("NumericalPropagator.iter: the `dates not in kwargs` block")
+    body = blk[0].body
+    st = [s for s in body if isinstance(s, ast.Assign) and ast.unparse(s.targets[0]) == "start"]
+    if [ast.unparse(s.value) for s in st] != ["kwargs.setdefault('start', self.orbit.date)", "self.orbit.date if start is None else start"]:
+        raise U("NumericalPropagator.iter: defaulting of `start`")
+    rel = [s for s in body if isinstance(s, ast.If) and ast.unparse(s.test) == "isinstance(kwargs['stop'], timedelta)"]
+    if len(rel) != 1 or len(rel[0].body) != 1 or rel[0].orelse or not isinstance(rel[0].body[0], ast.Assign) \
+            or ast.unparse(rel[0].body[0].targets[0]) != "kwargs['stop']":
+        raise U("NumericalPropagator.iter: relative `stop`")
+    names = {"start": "start", "kwargs['stop']": "delta", "self.orbit.date": "epoch"}
+    relstop = _int_expr(rel[0].body[0].value, names)
+    fwd = [s for s in it.body if isinstance(s, ast.For)]
+    if len(fwd) != 1 or ast.unparse(fwd[0].iter) != "self._iter(**kwargs)" or ast.unparse(fwd[0].body[0]) != "yield orb":
+        raise U("NumericalPropagator.iter: forwarding to _iter")
+    # propagate: `if isinstance(date, timedelta): date = <expr>` then `return next(self.iter(start=date, stop=date))`
+    if len(pr.body) != 2 or not isinstance(pr.body[0], ast.If) or ast.unparse(pr.body[0].test) != "isinstance(date, timedelta)" \
+            or len(pr.body[0].body) != 1 or ast.unparse(pr.body[0].body[0].targets[0]) != "date" \
+            or ast.unparse(pr.body[1]) != "return next(self.iter(start=date, stop=date))":
+        raise U("NumericalPropagator.propagate")
+    reltarget = _int_expr(pr.body[0].body[0].value, {"date": "delta", "self.orbit.date": "epoch"})
+    return ("/-- `kwargs[\"stop\"] = " + ast.unparse(rel[0].body[0].value) + "` — `NumericalPropagator.iter`, `stop` given as a timedelta (`delta`); "
+            "`epoch` = `self.orbit.date` -/\n"
+            f"def relStop (epoch start delta : Int) : Int := {relstop}\n\n"
+            "/-- `date = " + ast.unparse(pr.body[0].body[0].value) + "` — `NumericalPropagator.propagate`, target given as a timedelta; the request is then "
+            "`iter(start=date, stop=date)` -/\n"
+            f"def relTarget (epoch delta : Int) : Int := {reltarget}\n\n")
+
+
+def translate_iter(tree, ephem_tree, base_tree=None):
     """the padding rule of `KeplerNum._iter`: loop condition of the march, `interp`, padding count of the positioning phase,
     the `order` argument of the two `Ephem(...)` calls; `Ephem.DEFAULT_ORDER`"""
     U = py2lean.Untranslatable
@@ -505,6 +658,7 @@ def translate_iter(tree, ephem_tree):
             f"def pointPropId (recv next k : Nat) : Nat := {ptxt}\n\n"
             "/-- number of propagator objects created for an output of `n` points -/\n"
             f"def propsAllocated (n : Nat) : Nat := {atxt}\n\n"
+            + (translate_request(base_tree) if base_tree is not None else "") +
             "end BeyondVerif.Generated.KNIterSrc\n")
 
 
@@ -513,7 +667,8 @@ def extract(ctx):
     btext, values = translate_butcher(tree)
     body = "namespace KN\n\n" + PRELUDE + "\n" + btext + translate_accel(tree) + "\n" + translate_step_scale(tree) + "\nend KN\n"
     ch = py2lean.instantiate(core.LEAN, "KeplerNum", body, "beyond/propagators/keplernum.py")
-    itext = translate_iter(tree, ast.parse(open(os.path.join(core.REPO, "beyond", "orbits", "ephem.py")).read()))
+    itext = translate_iter(tree, ast.parse(open(os.path.join(core.REPO, "beyond", "orbits", "ephem.py")).read()),
+                           ast.parse(open(os.path.join(core.REPO, "beyond", "propagators", "base.py")).read()))
     if core.write_if_changed(os.path.join(core.LEAN, "BeyondVerif", "Generated", "KNIterSrc.lean"), itext):
         ch.append("Generated/KNIterSrc.lean")
     ch += instantiate.main()
@@ -772,19 +927,42 @@ def correspondence(ctx):
 # ---------------------------------------------------------------- correspondence: histories on one KeplerNum object
 
 class _FixedBody:
-    """a point mass at rest in EME2000 (duck-typed body: `µ`, `propagate(date)`)"""
+    """a point mass in UNIFORM MOTION in the frame of the orbit (duck-typed body: `µ`, `propagate(date)`): position `pos` at `epoch()`,
+    velocity `vel` (zero for most bodies: at rest)"""
 
-    def __init__(self, name, mu, pos):
+    def __init__(self, name, mu, pos, vel=(0.0, 0.0, 0.0)):
         self.name = name
         setattr(self, "μ", mu)      # `body.µ`: the identifier is NFKC-normalised by the parser to U+03BC
         self.pos = list(pos)
+        self.vel = list(vel)
 
     def propagate(self, date):
-        from beyond.orbits import StateVector
-        return StateVector(self.pos + [0.0, 0.0, 0.0], date, "cartesian", "EME2000")
+        # `_accel` does `orb_body.frame = orb.frame` and reads `orb_body[:3]`: the body moves IN THE FRAME OF THE ORBIT, whatever
+        # that frame is (the assignment is a plain attribute here, no conversion).  `date` is the date of the stage.
+        import numpy as np
+        t = (date - epoch()).total_seconds()
+        return np.array([p_ + t * v_ for p_, v_ in zip(self.pos, self.vel)] + self.vel, float).view(_FrameFree)
 
     def tokens(self):
-        return [f2b(float(getattr(self, "μ")))] + [f2b(float(v)) for v in self.pos + [0.0, 0.0, 0.0]]
+        return [f2b(float(getattr(self, "μ")))] + [f2b(float(v)) for v in self.pos + self.vel]
+
+    def desc(self):
+        return [getattr(self, "μ")] + self.pos + self.vel
+
+
+class _FrameFree(__import__("numpy").ndarray):
+    """six numbers with a freely assignable `frame` attribute"""
+
+
+HIST_FRAMES = ["EME2000", "TOD", "MOD"]
+
+
+def views_of(y):
+    """the caller's orbit (cartesian, EME2000, at `epoch()`) as cartesian state in every candidate frame: what
+    `orbit.copy(form="cartesian", frame=f)` returns (the conversion is C02's; here it is an input of the model)"""
+    from beyond.orbits import Orbit
+    orb = Orbit(list(y), epoch(), "cartesian", "EME2000", None)
+    return [(f, [float(v) for v in orb.copy(form="cartesian", frame=f)]) for f in HIST_FRAMES]
 
 
 def gen_history(rng, mu):
@@ -794,16 +972,37 @@ def gen_history(rng, mu):
         m_, d_ = rng.choice([(4.9e12, 3.8e8), (1.3e20, 1.5e11), (3.0e13, 1.0e9)])
         u = [rng.uniform(-1, 1) for _ in range(3)]
         n = math.sqrt(sum(x * x for x in u)) or 1.0
+        if rng.random() < 0.5:
+            # a heavy mass passing by: its displacement within one step changes the attraction by ~1 %, so the DATE at which each
+            # stage evaluates the bodies (`y_n_prime.date += step * c`) is visible in the result
+            w = [rng.uniform(-1, 1) for _ in range(3)]
+            return _FixedBody("passing", 1.0e14, [6.0e7 * x / n for x in u], [1.0e4 * x for x in w])
         return _FixedBody("far", m_, [d_ * x / n for x in u])
     central = _FixedBody("central", mu, [0.0, 0.0, 0.0])
     name = lambda: rng.choice(METHODS + METHODS + ["RK4", "Dopri54", "rk5", "EULER"])
-    init = {"method": name(), "step": q(rng.uniform(5, 120)), "tol": 10 ** rng.uniform(-8, -2), "bodies": [central] + ([far()] if rng.random() < 0.3 else [])}
+    init = {"method": name(), "step": q(rng.uniform(5, 120)), "tol": 10 ** rng.uniform(-8, -2), "bodies": [central] + ([far()] if rng.random() < 0.3 else []),
+            "frame": rng.choice(["EME2000", "EME2000", "TOD", "MOD"])}
     nb = len(init["bodies"])
     step = init["step"]
     ops = []
     o = gen_orbit(rng, mu)
     for _ in range(rng.randint(3, 9)):
         r = rng.random()
+        if ops and rng.random() < 0.35:
+            # the `frame` attribute and the bound orbit
+            r2 = rng.random()
+            if r2 < 0.25:
+                ops.append({"op": "sf", "f": rng.choice(HIST_FRAMES + ["TOD", "NOPE"])})
+            elif r2 < 0.6:
+                if rng.random() < 0.6:
+                    o = gen_orbit(rng, mu)
+                ops.append({"op": "bd", "y": o["x0"], "views": views_of(o["x0"])})
+            elif r2 < 0.85:
+                from datetime import timedelta as _td
+                ops.append({"op": "sd", "h": _td(seconds=step * rng.choice([1, 1, -1, 0.5])).total_seconds()})
+            else:
+                ops.append({"op": "ro"})
+            continue
         if r < 0.45 or not ops:
             h = step * rng.choice([1, 1, -1, 0.5, -0.25])
             from datetime import timedelta as _td
@@ -831,13 +1030,16 @@ def gen_history(rng, mu):
             ops.append({"op": "db"})
         else:
             ops.append({"op": "cp"})
-    if ops[-1]["op"] not in ("mk", "rb"):
+    if ops[-1]["op"] in ("sf", "bd"):
+        ops.append({"op": "bd", "y": o["x0"], "views": views_of(o["x0"])})
+        ops.append({"op": "sd", "h": step})
+    if ops[-1]["op"] not in ("mk", "rb", "sd", "ro"):
         ops.append({"op": "mk", "h": step, "y": o["x0"], "rv": (math.sqrt(sum(v * v for v in o["x0"][:3])), math.sqrt(sum(v * v for v in o["x0"][3:])))})
     return init, ops
 
 
 def _seq_request(init, ops):
-    toks = ["c06seq", init["method"], f2b(init["step"]), f2b(init["tol"]), str(len(init["bodies"]))]
+    toks = ["c06seq", init["method"], init.get("frame", "EME2000"), f2b(init["step"]), f2b(init["tol"]), str(len(init["bodies"]))]
     for b in init["bodies"]:
         toks += b.tokens()
     for op in ops:
@@ -854,6 +1056,12 @@ def _seq_request(init, ops):
             toks += ["sb", str(len(op["bodies"]))] + [t for b in op["bodies"] for t in b.tokens()]
         elif k == "ab":
             toks += ["ab"] + op["body"].tokens()
+        elif k == "sf":
+            toks += ["sf", op["f"]]
+        elif k == "bd":
+            toks += ["bd", str(len(op["views"]))] + [t for f, v in op["views"] for t in [f] + [f2b(x) for x in v]]
+        elif k == "sd":
+            toks += ["sd", f2b(op["h"])]
         else:
             toks.append(k)
     return " ".join(toks)
@@ -866,8 +1074,26 @@ def _real_call(prop, op):
     try:
         if op["op"] == "rb":
             return _tab_tokens(prop.butcher)
-        prop.orbit = Orbit(list(op["y"]), epoch(), "cartesian", "EME2000", None)
-        hs, y1 = prop._make_step(prop.orbit, timedelta(seconds=op["h"]))
+        if op["op"] == "ro":
+            b = prop.orbit
+            return "none" if b is None else b.frame.name + " " + " ".join(f2b(float(v)) for v in b)
+        if op["op"] == "sd":
+            hs, y1 = prop._make_step(prop.orbit, timedelta(seconds=op["h"]))
+            return [hs.total_seconds()] + [float(v) for v in y1.base]
+        # `mk`: `_make_step(orb, h)` on a state given by the caller, as it is (no frame conversion), leaving the object's own
+        # binding as it was — `_make_step` reads the maneuvers of the bound orbit, so one is bound for the duration of the call
+        keep, had = prop.frame, prop.__dict__.get("_orbit", None)
+        prop.frame = "EME2000"
+        try:
+            prop.orbit = Orbit(list(op["y"]), epoch(), "cartesian", "EME2000", None)
+            prop.frame = keep
+            hs, y1 = prop._make_step(prop.orbit, timedelta(seconds=op["h"]))
+        finally:
+            prop.frame = keep
+            if had is None:
+                prop.__dict__.pop("_orbit", None)
+            else:
+                prop._orbit = had
         return [hs.total_seconds()] + [float(v) for v in y1.base]
     except KeyError:
         return "unknown-name"
@@ -875,25 +1101,45 @@ def _real_call(prop, op):
         return "runtime-error"
     except IndexError:
         return "index-error"
+    except AttributeError:
+        return "attribute-error"
 
 
-def _step_agree(real, model, errs, op, tol, mu):
-    """None = agree, "skip" = incomparable (estimate within rounding noise of tol), else a description"""
+def _date_noise(bodies, op):
+    """the real code rounds every stage date to whole microseconds (`y_n_prime.date += step * c` is timedelta arithmetic), the model
+    uses t + c h exactly: a body moving at speed w is displaced by up to w x 0.5 us, its attraction mu/d^2 changes by 2 mu w 0.5e-6 / d^3,
+    the stage positions by h^2 times that.  Bound (x10) of the resulting change of the embedded estimate, in metres."""
+    y = op.get("y")
+    if y is None:
+        return 0.0
+    tot = 0.0
+    for b in bodies:
+        w = math.sqrt(sum(x * x for x in getattr(b, "vel", (0.0, 0.0, 0.0))))
+        if w:
+            d = max(1e5, math.sqrt(sum((p_ - q_) ** 2 for p_, q_ in zip(b.pos, y[:3]))))
+            tot += 2 * float(getattr(b, "μ")) * w * 0.5e-6 / d ** 3
+    return 10 * tot * op["h"] ** 2
+
+
+def _step_agree(real, model, errs, op, tol, mu, extra=0.0):
+    """None = agree, "skip" = incomparable (estimate within rounding noise of tol), else a description.
+    `extra`: further absolute noise of the estimate (`_date_noise`)"""
     r_, v_ = op["rv"]
-    noise = 2e-16 * abs(op["h"]) * v_
+    noise = 2e-16 * abs(op["h"]) * v_ + extra
     if any(abs(e - tol) <= noise for e in errs):
         return "skip"
     if isinstance(real, str) or isinstance(model, str):
         return None if real == model else "outcome"
     dh = abs(model[0] - real[0])
     shrunk = abs(real[0]) < abs(op["h"])
-    allowed = (1e-6 + abs(real[0]) * (1e-9 + 2e-16 * abs(op["h"]) * v_ / tol)) if shrunk else 0.0
+    allowed = (1e-6 + abs(real[0]) * (1e-9 + (2e-16 * abs(op["h"]) * v_ + extra) / tol)) if shrunk else 0.0
     if dh > allowed:
         return "accepted step size"
     for i, (a, b) in enumerate(zip(real[1:], model[1:])):
         sc = r_ if i < 3 else v_
         rate = v_ if i < 3 else mu / r_ ** 2
-        if not core.close(a, b, rtol=1e-11, atol=1e-11 * sc + 2 * dh * rate, scale=max(abs(a), abs(b))):
+        if not core.close(a, b, rtol=1e-11, atol=1e-11 * sc + 2 * dh * rate + (extra if i < 3 else extra / max(abs(op["h"]), 1.0)),
+                          scale=max(abs(a), abs(b))):
             return f"component {i}"
     return None
 
@@ -913,18 +1159,36 @@ def corr_histories(ctx, out, mu):
     replies = core.Driver().run(reqs)
     for req, (init, ops), rep in zip(reqs, hist, replies):
         model = rep.split(" ; ")
-        desc = {"initial": {"method": init["method"], "step": init["step"], "tol": init["tol"], "bodies": [[getattr(b, "μ")] + b.pos for b in init["bodies"]]},
-                "ops": [{k: ([getattr(x, "μ")] + x.pos if isinstance(x, _FixedBody) else [[getattr(b, "μ")] + b.pos for b in x] if k == "bodies" else x)
+        desc = {"initial": {"method": init["method"], "step": init["step"], "tol": init["tol"], "frame": init["frame"],
+                            "bodies": [b.desc() for b in init["bodies"]]},
+                "ops": [{k: (x.desc() if isinstance(x, _FixedBody) else [b.desc() for b in x] if k == "bodies" else x)
                          for k, x in op.items() if k != "rv"} for op in ops]}
         if len(model) != len(ops):
             out.fail("c06-seq", "reply length of a history", desc, observed=len(ops), expected=rep[:200])
             continue
-        prop = KeplerNum(timedelta(seconds=init["step"]), list(init["bodies"]), method=init["method"], tol=init["tol"])
+        prop = KeplerNum(timedelta(seconds=init["step"]), list(init["bodies"]), method=init["method"], tol=init["tol"], frame=init["frame"])
         since = []          # assignments since the previous observable call
         ncall = 0
+        last_bind = None    # (EME2000 state of the orbit of the last successful binding, frame at that moment)
         for k, (op, mrep) in enumerate(zip(ops, model)):
             kind = op["op"]
-            if kind in ("mk", "rb"):
+            if kind == "ro":
+                real = _real_call(prop, op)
+                ncall += 1
+                out.count(key=(req[:60], k, len(req)), nontrivial=bool(since), kind="history-ro", after="+".join(sorted(set(since))) or "call",
+                          bound=real != "none")
+                if real != mrep:
+                    out.fail("c06-seq-bound-orbit", f"history on one object: `prop.orbit` (frame name, stored state) differs from the model at operation {k}",
+                             dict(desc, at=k), observed=real[:80], expected=mrep[:80])
+                    break
+                continue
+            if kind == "sd":
+                b = prop.orbit
+                if b is not None:
+                    op = dict(op, y=[float(v) for v in b], rv=(math.sqrt(sum(float(v) ** 2 for v in b[:3])), math.sqrt(sum(float(v) ** 2 for v in b[3:]))))
+                else:
+                    op = dict(op, rv=(1.0, 1.0))
+            if kind in ("mk", "rb", "sd"):
                 real = _real_call(prop, op)
                 ncall += 1
                 out.count(key=(req[:60], k, len(req)), nontrivial=ncall > 1 or bool(since), kind="history-" + kind,
@@ -932,13 +1196,18 @@ def corr_histories(ctx, out, mu):
                 mtxt, _, e = mrep.partition(" | ")
                 errs = [b2f(t) for t in e.split()] if kind == "mk" else []
                 mval = mtxt if (kind == "rb" or not mtxt[:1].isdigit()) else [b2f(t) for t in mtxt.split()]
-                why = (None if real == mval else "tableau") if kind == "rb" else _step_agree(real, mval, errs, op, prop.tol, mu)
+                why = (None if real == mval else "tableau") if kind == "rb" else _step_agree(real, mval, errs, op, prop.tol, mu, extra=_date_noise(prop.bodies, op))
                 if why == "skip":
                     out.tally("step-borderline-skipped")
                 elif why is not None:
                     # what does a FRESH real object carrying the same attribute values return?
-                    f = KeplerNum(prop.step, list(prop.bodies), tol=prop.tol)
+                    f = KeplerNum(prop.step, list(prop.bodies), tol=prop.tol, frame=prop.frame)
                     f.method = prop.method
+                    if kind == "sd" and last_bind is not None:
+                        from beyond.orbits import Orbit
+                        f.frame = last_bind[1]
+                        f.orbit = Orbit(list(last_bind[0]), epoch(), "cartesian", "EME2000", None)
+                        f.frame = prop.frame
                     fresh = _real_call(f, op)
                     stale = (fresh != real) if (isinstance(fresh, str) or isinstance(real, str)) else any(
                         not core.close(a, b, rtol=1e-12, atol=1e-9) for a, b in zip(fresh, real))
@@ -950,10 +1219,21 @@ def corr_histories(ctx, out, mu):
                     break
                 since = []
                 continue
-            since.append({"sm": "method", "ss": "step", "st": "tol", "sb": "bodies", "ab": "bodies-append", "db": "bodies-pop", "cp": "copy"}[kind])
+            since.append({"sm": "method", "ss": "step", "st": "tol", "sb": "bodies", "ab": "bodies-append", "db": "bodies-pop", "cp": "copy",
+                          "sf": "frame", "bd": "bind"}[kind])
             real = "q"
             try:
-                if kind == "sm":
+                if kind == "sf":
+                    prop.frame = op["f"]
+                elif kind == "bd":
+                    from beyond.orbits import Orbit
+                    from beyond.errors import UnknownFrameError
+                    try:
+                        prop.orbit = Orbit(list(op["y"]), epoch(), "cartesian", "EME2000", None)
+                        last_bind = (list(op["y"]), prop.frame)
+                    except UnknownFrameError:
+                        real = "unknown-frame"
+                elif kind == "sm":
                     prop.method = op["m"]
                 elif kind == "ss":
                     prop.step = timedelta(seconds=op["h"])
@@ -1036,6 +1316,7 @@ def corr_iter(ctx, out, mu):
     rng = ctx.rng
     td = lambda x: timedelta(seconds=x)
     cases = []
+    norm_cases = []
     for k in range(ctx.n(160, 3000)):
         o = gen_orbit(rng, mu)
         h = q(rng.uniform(5, 120))
@@ -1046,24 +1327,34 @@ def corr_iter(ctx, out, mu):
         span, outs = plan["span"], plan["out_step"]
         orb = make(o["x0"], h, m, tol=tol)
         d0 = orb.date
+        ureq = None      # the request as the caller wrote it (start given?, start, stop relative?, stop), where `stop` is a timedelta
         if form.startswith("step-"):
             call = lambda ob: list(ob.iter(stop=td(span), step=td(outs)))
+            ureq = ("c06norm", 0, 0.0, 1, span)
         elif form == "ephem":
             call = lambda ob: list(ob.ephem(stop=td(span), step=td(outs)))
+            ureq = ("c06norm", 0, 0.0, 1, span)
         elif form in ("dates-list", "dates-before-epoch", "dates-across-epoch"):
             call = lambda ob: list(ob.iter(dates=[d0 + td(x) for x in plan["offsets"]]))
         elif form == "dates-range":
             call = lambda ob: list(ob.iter(dates=Date.range(d0, d0 + td(span), td(outs), inclusive=True)))
         elif form == "backward-step":
             call = lambda ob: list(ob.iter(stop=-td(span), step=td(outs)))
+            ureq = ("c06norm", 0, 0.0, 1, -span)
         elif form == "backward-explicit":
             call = lambda ob: list(ob.iter(start=d0, stop=d0 - td(span), step=-td(outs)))
+            ureq = ("c06norm", 1, 0.0, 0, -span)
         elif form == "start-offset":
             call = lambda ob: list(ob.iter(start=d0 + td(plan["start"]), stop=d0 + td(plan["start"] + span), step=td(outs)))
+            ureq = ("c06norm", 1, plan["start"], 0, plan["start"] + span)
+        elif form == "start-offset-rel":
+            call = lambda ob: list(ob.iter(start=d0 + td(plan["start"]), stop=td(span), step=td(outs)))
+            ureq = ("c06norm", 1, plan["start"], 1, span)
         elif form == "propagate":
             T = q(rng.uniform(-12, 12) * h) if rng.random() < 0.8 else h * rng.randint(-9, 9)
             plan["T"] = T
             call = lambda ob: [ob.propagate(td(T))]
+            ureq = ("c06target", T)
         elif form == "native-step":
             call = lambda ob: list(ob.iter(stop=td(span)))
         elif form == "native-backward":
@@ -1101,6 +1392,17 @@ def corr_iter(ctx, out, mu):
         req = " ".join(["c06iter", "0", str(_us(start, e0)), str(_us(stop, e0)), str(int(dates is not None)), str(int(sg)), str(int(ls))]
                        + [str(int(round(s_.total_seconds() * 1e6))) for s_ in steps])
         cases.append((req, inp, e0, ephems, len(steps), form, m))
+        if ureq is not None:
+            us = lambda x: str(int(round(x * 1e6)))
+            nreq = (" ".join(["c06norm", "0", str(ureq[1]), us(ureq[2]), str(ureq[3]), us(ureq[4])]) if ureq[0] == "c06norm"
+                    else " ".join(["c06target", "0", us(ureq[1])]))
+            norm_cases.append((nreq, inp, f"{_us(start, e0)} {_us(stop, e0)}", form))
+    nrep = core.Driver().run([c[0] for c in norm_cases])
+    for (nreq, inp, real, form), rep in zip(norm_cases, nrep):
+        out.count(key=nreq, kind="request-normalisation-" + form)
+        if rep != real:
+            out.fail("c06-request-" + form, "the (start, stop) `KeplerNum._iter` receives for a request differ from the model of NumericalPropagator.iter / propagate "
+                     "(relative stop counted from the start, relative target from the epoch)", inp, observed=real, expected=rep)
     replies = core.Driver().run([c[0] for c in cases])
     for (req, inp, e0, ephems, ncalls, form, m), rep in zip(cases, replies):
         obs = [(sorted(_us(d, e0) for d in ds), order) for ds, order, _ in ephems]
@@ -1546,9 +1848,11 @@ def check_adaptive(out, o, h, T, mu, method, tol):
     dE = abs(energy(r, mu) / energy(o["x0"], mu) - 1)
     L0 = angmom(o["x0"])
     dL = float(np.linalg.norm(angmom(r) - L0) / np.linalg.norm(L0))
-    b = 1e-11 + 100 * (N + 8) * tol / o["rp"]
+    # a position error d at radius r changes the energy by (mu/r^2) d, i.e. relatively by 2 a d / r^2 = 2 d / (rp (1 - e)) at perigee: the
+    # natural scale of the drift per accepted step is tol / (rp (1 - e)) (observed 5.1e-10 at e = 0.69, perigee 214 km, 12 steps, tol 1.5e-6)
+    b = 1e-11 + 100 * (N + 8) * tol / (o["rp"] * (1 - o["e"]))
     if dE > b or dL > b:
-        out.fail(method + "-drift", "relative energy / angular momentum drift exceeds 100 N tol / rp", inp, observed={"dE": dE, "dL": dL}, expected=b)
+        out.fail(method + "-drift", "relative energy / angular momentum drift exceeds 100 N tol / (rp (1 - e))", inp, observed={"dE": dE, "dL": dL}, expected=b)
     # one step of the integrator itself, from a state on the exact orbit
     p = orb.propagator
     hs, y1 = p._make_step(p.orbit, timedelta(seconds=math.copysign(h, T if T else 1.0)))
@@ -1664,7 +1968,7 @@ def check_chained(out, o, h, T, mu, method, tol):
 # ---------------------------------------------------------------- short spans and output grids (the padding rule of _iter)
 
 SHORT_FORMS = ["step-smaller", "step-equal", "step-larger", "step-incommensurate", "dates-list", "dates-range", "backward-step",
-               "backward-explicit", "dates-before-epoch", "dates-across-epoch", "start-offset", "ephem"]
+               "backward-explicit", "dates-before-epoch", "dates-across-epoch", "start-offset", "ephem", "start-offset-rel"]
 
 
 def plan_short(rng, o, h, method, tol=1e-3, form=None):
@@ -1687,7 +1991,7 @@ def plan_short(rng, o, h, method, tol=1e-3, form=None):
         elif form == "dates-across-epoch":
             offs = [x - q(span * rng.uniform(0.2, 0.8)) for x in offs]
         plan["offsets"] = offs            # in the drawn (arbitrary) order
-    if form == "start-offset":
+    if form in ("start-offset", "start-offset-rel"):
         plan["start"] = q(h * rng.uniform(-3, 3))
     return plan
 
@@ -1723,6 +2027,12 @@ def run_short(out, o, mu, plan):
     elif form == "start-offset":
         s0 = d0 + td(plan["start"])
         pts = list(orb.iter(start=s0, stop=s0 + td(span), step=td(outs)))
+        want_dates = [s0 + td(outs) * i for i in range(int(math.floor(span / outs + 1e-9)) + 1)]
+        same_grid = plan["start"] == 0
+    elif form == "start-offset-rel":
+        # an explicit start with a RELATIVE stop (a timedelta): the span is counted from the start
+        s0 = d0 + td(plan["start"])
+        pts = list(orb.iter(start=s0, stop=td(span), step=td(outs)))
         want_dates = [s0 + td(outs) * i for i in range(int(math.floor(span / outs + 1e-9)) + 1)]
         same_grid = plan["start"] == 0
     else:
@@ -1771,7 +2081,7 @@ def run_short(out, o, mu, plan):
 
 # ---------------------------------------------------------------- one propagator object re-used with changed attributes
 
-REUSE_ATTRS = ["method", "step", "tol", "bodies", "bodies-inplace", "frame", "maneuvers", "orbit"]
+REUSE_ATTRS = ["method", "step", "tol", "bodies", "bodies-inplace", "frame", "maneuvers", "orbit", "state-inplace"]
 
 
 def plan_reuse(rng, o, first=None):
@@ -1801,18 +2111,32 @@ def plan_reuse(rng, o, first=None):
                     sets["maneuvers"] = [] if cfg["maneuvers"] else [{"at": q(cfg["step"] * rng.uniform(0.5, 3)), "dv": [rng.uniform(-5, 5) for _ in range(3)]}]
                 elif a == "orbit":
                     sets["orbit"] = 1 - legs[-1]["orbit"]
+                elif a == "state-inplace":
+                    # the calling orbit object itself is modified in place between two calls (a hand-made velocity increment)
+                    sets["state-inplace"] = [rng.uniform(-2, 2) for _ in range(3)]
         for a, v in sets.items():
             if a == "bodies-inplace":
                 cfg["bodies"] = cfg["bodies"] + ["Moon"] if v == "append-Moon" else [b for b in cfg["bodies"] if b != "Moon"]
-            elif a != "orbit":
+            elif a not in ("orbit", "state-inplace"):
                 cfg[a] = v
         n = rng.uniform(1, 25) if "Moon" not in cfg["bodies"] else rng.uniform(1, 6)
         T = q(math.copysign(cfg["step"] * n, rng.choice([1, 1, -1])))
         call = rng.choice(["propagate", "propagate", "iter-step", "iter-dates"])
-        legs.append({"set": sets, "call": call, "T": T, "out_step": q(abs(T) / rng.choice([1.0, 2.5, 4.0])) or 1e-3,
+        outs_ = q(abs(T) / rng.choice([1.0, 2.5, 4.0])) or 1e-3
+        if ("orbit" in sets or "state-inplace" in sets) and legs and rng.random() < 0.7:
+            # the SAME request (same dates) for the other satellite
+            T, call, outs_ = legs[-1]["T"], legs[-1]["call"], legs[-1]["out_step"]
+        legs.append({"set": sets, "call": call, "T": T, "out_step": outs_,
                      "orbit": sets.get("orbit", legs[-1]["orbit"] if legs else 0), "cfg": dict(cfg)})
     c0 = dict(legs[0]["cfg"])
-    return {"initial": c0, "legs": legs}
+    # the second orbit object sharing the propagator object: half of the time ANOTHER satellite (same epoch, other state) — one
+    # propagator object serving several orbits is the constellation use; anything the object keeps from the previous call
+    # (a tabulation, a stage derivative, a bound state) then belongs to the wrong satellite
+    ob = None
+    if rng.random() < 0.5 or first == "orbit":
+        mu_ = float(earth().µ)
+        ob = gen_orbit(rng, mu_)
+    return {"initial": c0, "legs": legs, "orbit_b": ob}
 
 
 def _bodies(names):
@@ -1848,12 +2172,13 @@ def run_reuse(out, o, mu, plan):
     c0 = plan["initial"]
     prop = KeplerNum(timedelta(seconds=c0["step"]), _bodies(c0["bodies"]), method=c0["method"], frame=c0["frame"], tol=c0["tol"])
     # two orbit objects may share the propagator object: the same state at the same date (so that the reference is the same)
-    orbs = [Orbit(list(o["x0"]), epoch(), "cartesian", "EME2000", prop) for _ in range(2)]
+    os_ = [dict(o), dict(plan.get("orbit_b") or o)]
+    orbs = [Orbit(list(oo["x0"]), epoch(), "cartesian", "EME2000", prop) for oo in os_]
 
-    def fresh(cfg, override=None):
+    def fresh(cfg, override=None, which=0):
         c = dict(cfg)
         c.update(override or {})
-        f = Orbit(list(o["x0"]), epoch(), "cartesian", "EME2000",
+        f = Orbit(list(os_[which]["x0"]), epoch(), "cartesian", "EME2000",
                   KeplerNum(timedelta(seconds=c["step"]), _bodies(c["bodies"]), method=c["method"], frame=c["frame"], tol=c["tol"]))
         f.maneuvers = _mans(f, c["maneuvers"])
         return f
@@ -1886,9 +2211,17 @@ def run_reuse(out, o, mu, plan):
                 changed[a] = prev[a]
         prev = dict(cfg)
         orb = orbs[leg["orbit"]]
+        w = leg["orbit"]
+        x0_before = None
+        if "state-inplace" in leg["set"]:
+            dv = leg["set"]["state-inplace"]
+            x0_before = list(os_[w]["x0"])
+            orb[3:] = [float(orb[3 + i_]) + dv[i_] for i_ in range(3)]          # in place, on the caller's object
+            os_[w]["x0"] = list(os_[w]["x0"][:3]) + [os_[w]["x0"][3 + i_] + dv[i_] for i_ in range(3)]
+        oo = os_[w]
         inp = case_inp(o, cfg["step"], leg["T"], method=cfg["method"], tol=cfg["tol"], plan=plan, leg=k)
         got = _reuse_call(orb, leg)
-        want = _reuse_call(fresh(cfg), leg)
+        want = _reuse_call(fresh(cfg, which=w), leg)
         out.count(key=("reuse", k, repr(leg["set"]), cfg["method"], cfg["step"], leg["T"], o["rp"]), nontrivial=k > 0, kind="reuse-" + leg["call"],
                   changed="+".join(sorted(leg["set"])) or "nothing", method=cfg["method"])
         bad = None
@@ -1908,12 +2241,31 @@ def run_reuse(out, o, mu, plan):
             stale = []
             for a, old in changed.items():
                 try:
-                    alt = _reuse_call(fresh(cfg, {a: old}), leg)
+                    alt = _reuse_call(fresh(cfg, {a: old}, which=w), leg)
                     if len(alt) == len(got) and all(float(np.linalg.norm(x[1][:3] - y[1][:3])) <= 1e-6 for x, y in zip(alt, got)):
                         stale.append(a)
                 except Exception:
                     pass
             fam = ("reuse-stale-" + "+".join(sorted(stale))) if stale else ("reuse-differs-after-set-" + ("+".join(sorted(changed)) or "nothing"))
+            if not stale and x0_before is not None:
+                # does the propagator still integrate from the state the caller's orbit had BEFORE it was modified in place?
+                try:
+                    keep = os_[w]["x0"]
+                    os_[w]["x0"] = x0_before
+                    old_ = _reuse_call(fresh(cfg, which=w), leg)
+                    os_[w]["x0"] = keep
+                    if len(old_) == len(got) and all(float(np.linalg.norm(x[1][:3] - y[1][:3])) <= 1e-6 for x, y in zip(old_, got)):
+                        fam = "reuse-stale-bound-orbit-state"
+                except Exception:
+                    os_[w]["x0"] = keep
+            if not stale and plan.get("orbit_b") and k > 0 and fam.startswith("reuse-differs"):
+                # does the shared object answer for the OTHER satellite?
+                try:
+                    other = _reuse_call(fresh(cfg, which=1 - w), leg)
+                    if len(other) == len(got) and all(float(np.linalg.norm(x[1][:3] - y[1][:3])) <= 1e-6 for x, y in zip(other, got)):
+                        fam = "reuse-shared-propagator-other-orbit"
+                except Exception:
+                    pass
             out.fail(fam, "a KeplerNum object whose public attributes were changed between two calls does not return what a fresh propagator configured with the "
                           "current values returns (" + bad[0] + ")" + (": it still integrates with the former " + ", ".join(stale) if stale else ""),
                      inp, observed=bad[1], expected=bad[2])
@@ -1921,13 +2273,13 @@ def run_reuse(out, o, mu, plan):
         # the result is the two-body solution within the accuracy of the CURRENT configuration
         if cfg["bodies"] == ["Earth"] and not cfg["maneuvers"] and cfg["method"] != "euler" and cfg["frame"] == "EME2000":
             h, T = cfg["step"], leg["T"]
-            nh, vmax = o["n_p"] * h, math.sqrt(mu * (1 + o["e"]) / o["rp"])
+            nh, vmax = oo["n_p"] * h, math.sqrt(mu * (1 + oo["e"]) / oo["rp"])
             for d, a in got:
                 dt = (d - orb.date).total_seconds()
-                nT = o["n_p"] * abs(dt)
-                acc = (0.5 * o["rp"] * nh ** 4 * (1 + nT) ** 2) if cfg["method"] == "rk4" else 10 * (abs(dt) / h + 16) * cfg["tol"] * (1 + nT)
-                err = float(np.linalg.norm(a[:3] - kepler_ref(o["x0"], dt, mu)[:3]))
-                lim = 0.012 + acc + interp_tol(o, h, vmax)
+                nT = oo["n_p"] * abs(dt)
+                acc = (0.5 * oo["rp"] * nh ** 4 * (1 + nT) ** 2) if cfg["method"] == "rk4" else 10 * (abs(dt) / h + 16) * cfg["tol"] * (1 + nT)
+                err = float(np.linalg.norm(a[:3] - kepler_ref(oo["x0"], dt, mu)[:3]))
+                lim = 0.012 + acc + interp_tol(oo, h, vmax)
                 if not err <= lim:
                     out.fail("reuse-error-" + cfg["method"], "after its attributes were changed, the propagator's result is farther from the analytical solution than the "
                              "accuracy of the configuration now set", dict(inp, date_offset=dt), observed=err, expected=lim)
@@ -1995,7 +2347,7 @@ def oracle(ctx, widened):
             ps_ = plan_siblings(rng, o, mode=SIB_MODES[(k // 3) % len(SIB_MODES)])
             run("siblings", dict(case_inp(o, ps_["step"], 0.0), plan=ps_), run_siblings, out, o, mu, ps_)
         if k % 2 == 0:
-            rp_ = plan_reuse(rng, o, first=REUSE_ATTRS[(k // 2) % len(REUSE_ATTRS)] if k % 4 == 0 else None)
+            rp_ = plan_reuse(rng, o, first=REUSE_ATTRS[(k // 4) % len(REUSE_ATTRS)] if k % 4 == 0 else None)
             run("reuse", dict(case_inp(o, rp_["initial"]["step"], 0.0), plan=rp_), run_reuse, out, o, mu, rp_)
         else:
             m2 = METHODS[1 + (k // 2) % 3]
@@ -2033,15 +2385,22 @@ def replay_history(out, i):
     """a recorded history on one real object: at every call, the re-used object against a fresh one with the same attribute values"""
     from beyond.dates import timedelta
     from beyond.propagators.keplernum import KeplerNum
-    mk = lambda b: _FixedBody("b", b[0], b[1:4])
+    mk = lambda b: _FixedBody("b", b[0], b[1:4], b[4:7] if len(b) >= 7 else (0.0, 0.0, 0.0))
     init = i["initial"]
-    prop = KeplerNum(timedelta(seconds=init["step"]), [mk(b) for b in init["bodies"]], method=init["method"], tol=init["tol"])
+    prop = KeplerNum(timedelta(seconds=init["step"]), [mk(b) for b in init["bodies"]], method=init["method"], tol=init["tol"],
+                     frame=init.get("frame", "EME2000"))
+    last_bind = None
     for k, op in enumerate(i["ops"]):
         kind = op["op"]
-        if kind in ("mk", "rb"):
+        if kind in ("mk", "rb", "sd"):
             real = _real_call(prop, op)
-            fr = KeplerNum(prop.step, list(prop.bodies), tol=prop.tol)
+            fr = KeplerNum(prop.step, list(prop.bodies), tol=prop.tol, frame=prop.frame)
             fr.method = prop.method
+            if kind == "sd" and last_bind is not None:
+                from beyond.orbits import Orbit
+                fr.frame = last_bind[1]
+                fr.orbit = Orbit(list(last_bind[0]), epoch(), "cartesian", "EME2000", None)
+                fr.frame = prop.frame
             fresh = _real_call(fr, op)
             stale = (fresh != real) if (isinstance(fresh, str) or isinstance(real, str)) else any(
                 not core.close(a, b, rtol=1e-12, atol=1e-9) for a, b in zip(fresh, real))
@@ -2063,6 +2422,15 @@ def replay_history(out, i):
             prop.bodies.pop()
         elif kind == "cp":
             prop = prop.copy()
+        elif kind == "sf":
+            prop.frame = op["f"]
+        elif kind == "bd":
+            from beyond.orbits import Orbit
+            try:
+                prop.orbit = Orbit(list(op["y"]), epoch(), "cartesian", "EME2000", None)
+                last_bind = (list(op["y"]), prop.frame)
+            except Exception:
+                pass
     return out
 
 
